@@ -160,7 +160,7 @@ func rulesC16(c *Ctx) {
 	}
 	modeUsers := map[string][]string{}
 	for _, fn := range c.P.FuncsInPkg(pkCBOR) {
-		for _, b := range fn.Blocks {
+		for _, b := range blocksIP(fn) {
 			for _, in := range b.Instrs {
 				if u, ok := in.(*ssa.UnOp); ok {
 					if g, ok := u.X.(*ssa.Global); ok && strings.HasPrefix(g.Name(), "decMode") {
@@ -314,7 +314,7 @@ func rulesC16(c *Ctx) {
 	for _, fn := range decs {
 		c.Analysed[fname(fn)] = true
 		np, nt := 0, 0
-		for _, b := range fn.Blocks {
+		for _, b := range blocksIP(fn) {
 			for _, in := range b.Instrs {
 				switch x := in.(type) {
 				case *ssa.Panic:
